@@ -247,98 +247,191 @@ def q_normalise(m=2):
     raised = z3.BoolVal(False)
     t0 = time.time()
 
-    def vec(x):
-        return x if isinstance(x, list) else None
+    def lift(op, l, r):
+        """element-wise binary operation with numpy's scalar broadcasting"""
+        if isinstance(l, list) and isinstance(r, list):
+            if len(l) != len(r):
+                raise Unsupported("shape mismatch")
+            return [op(x, y) for x, y in zip(l, r)]
+        if isinstance(l, list):
+            return [op(x, r) for x in l]
+        if isinstance(r, list):
+            return [op(l, y) for y in r]
+        return op(l, r)
+
+    nq = [0]
+
+    def quotient(x, d):
+        """x / d on the current path: a fresh variable q with q*d == x and d != 0 (division by zero is outside the model)"""
+        nq[0] += 1
+        qv = z3.Real(f"quot_{nq[0]}")
+        side.append(z3.Implies(pc[0], z3.And(d != 0, qv * d == x)))
+        side.append(z3.Implies(z3.Not(pc[0]), qv == x))
+        return qv
+
+    def zabs(x):
+        return z3.If(x < 0, -x, x)
+
+    def fold(v, pick):
+        out = v[0]
+        for x in v[1:]:
+            out = z3.If(pick(x, out), x, out)
+        return out
+
+    def as_bool(c):
+        if isinstance(c, bool):
+            return z3.BoolVal(c)
+        if z3.is_expr(c) and not z3.is_bool(c):
+            return c != 0
+        return c
+
+    CMP = {ast.Gt: lambda x, y: x > y, ast.GtE: lambda x, y: x >= y, ast.Lt: lambda x, y: x < y, ast.LtE: lambda x, y: x <= y,
+           ast.Eq: lambda x, y: x == y, ast.NotEq: lambda x, y: x != y}
 
     def ev(e):
         if isinstance(e, ast.JoinedStr):
             return None
         if isinstance(e, ast.Constant):
-            return z3.RealVal(e.value) if isinstance(e.value, (int, float)) else e.value
+            if isinstance(e.value, bool):
+                return z3.BoolVal(e.value)
+            return z3.RealVal(repr(e.value)) if isinstance(e.value, (int, float)) else e.value
         if isinstance(e, ast.Name):
             if e.id == "probabilities":
                 return p
-            return env[e.id]
+            if e.id in env:
+                return env[e.id]
+            raise Unsupported("name " + e.id)
         if isinstance(e, ast.Attribute) and isinstance(e.value, ast.Name) and e.value.id == "self":
-            if e.attr == "CUTOFF_FAIL":
-                return z3.RealVal(repr(fail))
-            if e.attr == "CUTOFF_WARN":
-                return z3.RealVal(repr(warn))
-            return env["self." + e.attr]
+            if "self." + e.attr in env:
+                return env["self." + e.attr]
+            cv = getattr(ProbabilisticSubcircuit, e.attr, None)
+            if isinstance(cv, (int, float)) and not isinstance(cv, bool):
+                return z3.RealVal(repr(float(cv)))
+            raise Unsupported("attribute self." + e.attr)
         if isinstance(e, ast.Call):
             f = ast.unparse(e.func)
+            if any(k.arg not in ("dtype", "copy", "axis") for k in e.keywords):
+                raise Unsupported("keyword argument in call " + f)
+            if f in ("numpy.asarray", "numpy.array", "numpy.asfarray", "list", "tuple", "float", "numpy.float64", "numpy.copy", "numpy.real"):
+                a0 = ev(e.args[0])
+                return list(a0) if isinstance(a0, list) else a0
+            meth = e.func.attr if isinstance(e.func, ast.Attribute) else None
+            recv = None
+            if meth in ("max", "min", "sum", "copy", "any", "all", "astype", "clip") and not (isinstance(e.func.value, ast.Name) and e.func.value.id == "numpy"):
+                recv = ev(e.func.value)
             a = [ev(x) for x in e.args]
-            if f == "numpy.asarray":
+            if recv is not None:
+                a = [recv] + (a if meth == "clip" else [])
+                f = "numpy." + meth
+            if f in ("numpy.copy", "numpy.astype"):
                 return list(a[0])
             if f == "numpy.clip":
                 lo, hi = a[1], a[2]
-                return [z3.If(x < lo, lo, z3.If(x > hi, hi, x)) for x in a[0]]
-            if f == "numpy.abs":
-                if isinstance(a[0], list):
-                    return [z3.If(x < 0, -x, x) for x in a[0]]
-                return z3.If(a[0] < 0, -a[0], a[0])
-            if f.endswith(".max") and not a:
-                v = ev(e.func.value)
-                out = v[0]
-                for x in v[1:]:
-                    out = z3.If(x > out, x, out)
-                return out
-            if f.endswith(".sum") and not a:
-                v = ev(e.func.value)
-                return z3.Sum(v)
-            if f == "max":
-                return z3.If(a[0] > a[1], a[0], a[1])
+                one = lambda x: z3.If(x < lo, lo, z3.If(x > hi, hi, x))
+                return [one(x) for x in a[0]] if isinstance(a[0], list) else one(a[0])
+            if f in ("numpy.abs", "numpy.absolute", "numpy.fabs", "abs"):
+                return [zabs(x) for x in a[0]] if isinstance(a[0], list) else zabs(a[0])
+            if f in ("numpy.max", "numpy.amax") or (f == "max" and len(a) == 1):
+                return fold(a[0], lambda x, o: x > o)
+            if f in ("numpy.min", "numpy.amin") or (f == "min" and len(a) == 1):
+                return fold(a[0], lambda x, o: x < o)
+            if f in ("numpy.sum", "sum", "math.fsum"):
+                return z3.Sum(a[0])
+            if f in ("max", "numpy.maximum") and len(a) == 2:
+                return lift(lambda x, y: z3.If(x > y, x, y), a[0], a[1])
+            if f in ("min", "numpy.minimum") and len(a) == 2:
+                return lift(lambda x, y: z3.If(x < y, x, y), a[0], a[1])
+            if f == "numpy.any":
+                return z3.Or(*[as_bool(x) for x in a[0]])
+            if f == "numpy.all":
+                return z3.And(*[as_bool(x) for x in a[0]])
+            if f == "numpy.where" and len(a) == 3:
+                cond = a[0]
+                n_ = len(cond)
+                x_ = a[1] if isinstance(a[1], list) else [a[1]] * n_
+                y_ = a[2] if isinstance(a[2], list) else [a[2]] * n_
+                return [z3.If(as_bool(c), x, y) for c, x, y in zip(cond, x_, y_)]
+            if f == "len":
+                return z3.RealVal(len(a[0]))
             raise Unsupported("call " + f)
         if isinstance(e, ast.BinOp):
             l, r = ev(e.left), ev(e.right)
             if isinstance(e.op, ast.Sub):
-                if isinstance(l, list):
-                    return [x - y for x, y in zip(l, r)] if isinstance(r, list) else [x - r for x in l]
-                return l - r
-            raise Unsupported("binop")
-        if isinstance(e, ast.Compare) and len(e.ops) == 1:
-            l, r = ev(e.left), ev(e.comparators[0])
-            if isinstance(e.ops[0], ast.Gt):
-                return l > r
-            raise Unsupported("compare")
+                return lift(lambda x, y: x - y, l, r)
+            if isinstance(e.op, ast.Add):
+                return lift(lambda x, y: x + y, l, r)
+            if isinstance(e.op, ast.Mult):
+                return lift(lambda x, y: x * y, l, r)
+            if isinstance(e.op, ast.Div):
+                return lift(quotient, l, r)
+            raise Unsupported("binop " + type(e.op).__name__)
+        if isinstance(e, ast.UnaryOp):
+            v = ev(e.operand)
+            if isinstance(e.op, ast.USub):
+                return [-x for x in v] if isinstance(v, list) else -v
+            if isinstance(e.op, ast.UAdd):
+                return v
+            if isinstance(e.op, ast.Not):
+                return z3.Not(as_bool(v))
+            raise Unsupported("unary " + type(e.op).__name__)
+        if isinstance(e, ast.BoolOp):
+            vs = [as_bool(ev(x)) for x in e.values]
+            return z3.And(*vs) if isinstance(e.op, ast.And) else z3.Or(*vs)
+        if isinstance(e, ast.IfExp):
+            c = as_bool(ev(e.test))
+            return lift(lambda x, y: z3.If(c, x, y), ev(e.body), ev(e.orelse))
+        if isinstance(e, ast.Compare):
+            terms = [ev(e.left)] + [ev(x) for x in e.comparators]
+            parts = []
+            for op, l, r in zip(e.ops, terms, terms[1:]):
+                if type(op) not in CMP:
+                    raise Unsupported("compare " + type(op).__name__)
+                parts.append(lift(CMP[type(op)], l, r))
+            if len(parts) == 1:
+                return parts[0]
+            if any(isinstance(x, list) for x in parts):
+                raise Unsupported("chained vector comparison")
+            return z3.And(*parts)
         raise Unsupported(ast.unparse(e)[:60])
 
     pc = [z3.BoolVal(True)]
+
+    def merge(tname, val):
+        old = env.get(tname)
+        if old is not None and not z3.is_true(pc[0]):
+            if isinstance(val, list) and isinstance(old, list) and len(val) == len(old):
+                val = [z3.If(pc[0], v, o) for v, o in zip(val, old)]
+            elif z3.is_expr(val) and z3.is_expr(old):
+                val = z3.If(pc[0], val, old)
+        env[tname] = val
+
+    AUG = {ast.Div: quotient, ast.Mult: lambda x, y: x * y, ast.Add: lambda x, y: x + y, ast.Sub: lambda x, y: x - y}
 
     def run(stmts):
         nonlocal raised
         for s in stmts:
             text = ast.unparse(s)
             if isinstance(s, ast.Expr):
-                if text.startswith("super().__init__") or isinstance(s.value, ast.Constant) or text.startswith("warnings.warn"):
+                if text.startswith("super().__init__") or isinstance(s.value, ast.Constant) or text.startswith(("warnings.warn", "warn(", "logging.", "logger.")):
                     continue
                 raise Unsupported(text[:60])
-            if isinstance(s, ast.Import):
+            if isinstance(s, (ast.Import, ast.ImportFrom, ast.Pass)):
                 continue
-            if isinstance(s, ast.Assign) and len(s.targets) == 1:
-                tname = ast.unparse(s.targets[0])
-                val = ev(s.value)
-                old = env.get(tname)
-                if old is not None and not z3.is_true(pc[0]):
-                    if isinstance(val, list):
-                        val = [z3.If(pc[0], v, o) for v, o in zip(val, old)]
-                    elif z3.is_expr(val):
-                        val = z3.If(pc[0], val, old)
-                env[tname] = val
-            elif isinstance(s, ast.AugAssign) and isinstance(s.op, ast.Div):
+            if isinstance(s, ast.Assign) and len(s.targets) == 1 and isinstance(s.targets[0], (ast.Name, ast.Attribute)):
+                merge(ast.unparse(s.targets[0]), ev(s.value))
+            elif isinstance(s, ast.AnnAssign) and s.value is not None:
+                merge(ast.unparse(s.target), ev(s.value))
+            elif isinstance(s, ast.AugAssign) and type(s.op) in AUG and isinstance(s.target, (ast.Name, ast.Attribute)):
                 tname = ast.unparse(s.target)
                 d = ev(s.value)
-                cur = env[tname]
-                # x /= d  with d != 0 on this path: fresh quotient variables q with q*d == x
-                new = []
-                for n_, x in enumerate(cur):
-                    qv = z3.Real(f"quot_{tname}_{n_}")
-                    side.append(z3.Implies(pc[0], z3.And(d != 0, qv * d == x)))
-                    side.append(z3.Implies(z3.Not(pc[0]), qv == x))
-                    new.append(qv)
-                env[tname] = new
+                cur = env[tname] if tname in env else ev(s.target)
+                new = lift(AUG[type(s.op)], cur, d)
+                if type(s.op) is ast.Div:
+                    env[tname] = new        # the quotient variables already equal the old value off this path
+                else:
+                    merge(tname, new)
             elif isinstance(s, ast.If):
-                c = ev(s.test)
+                c = as_bool(ev(s.test))
                 save = pc[0]
                 pc[0] = z3.And(save, c)
                 run(s.body)
@@ -349,6 +442,8 @@ def q_normalise(m=2):
                     pc[0] = save
             elif isinstance(s, ast.Raise):
                 raised = z3.Or(raised, pc[0])
+            elif isinstance(s, ast.Assert):
+                raised = z3.Or(raised, z3.And(pc[0], z3.Not(as_bool(ev(s.test)))))
             else:
                 raise Unsupported(text[:60])
 
